@@ -47,10 +47,14 @@ type IPFSLog struct {
 }
 
 func (l *IPFSLog) Len() int {
+	verifYield(l, "enter.Len")
+
 	return l.Entries.Len()
 }
 
 func (l *IPFSLog) RawHeads() iface.IPFSLogOrderedEntries {
+	verifYield(l, "enter.RawHeads")
+
 	l.lock.RLock()
 	heads := l.heads
 	l.lock.RUnlock()
@@ -176,6 +180,8 @@ func NewLog(services coreiface.CoreAPI, identity *identityprovider.Identity, opt
 }
 
 func (l *IPFSLog) SetIdentity(identity *identityprovider.Identity) {
+	verifYield(l, "enter.SetIdentity")
+
 	l.lock.Lock()
 	defer l.lock.Unlock()
 
@@ -282,6 +288,8 @@ func getEveryPow2(all iface.IPFSLogOrderedEntries, maxDistance int) []Entry {
 }
 
 func (l *IPFSLog) Get(c cid.Cid) (Entry, bool) {
+	verifYield(l, "enter.Get")
+
 	l.lock.RLock()
 	defer l.lock.RUnlock()
 
@@ -289,6 +297,8 @@ func (l *IPFSLog) Get(c cid.Cid) (Entry, bool) {
 }
 
 func (l *IPFSLog) Has(c cid.Cid) bool {
+	verifYield(l, "enter.Has")
+
 	l.lock.RLock()
 	defer l.lock.RUnlock()
 
@@ -301,6 +311,8 @@ func (l *IPFSLog) Has(c cid.Cid) bool {
 //
 // payload is the data that will be in the Entry
 func (l *IPFSLog) Append(ctx context.Context, payload []byte, opts *AppendOptions) (iface.IPFSLogEntry, error) {
+	verifYield(l, "enter.Append")
+
 	l.lock.Lock()
 	defer l.lock.Unlock()
 
@@ -427,6 +439,7 @@ func (l *IPFSLog) Iterator(options *IteratorOptions, output chan<- iface.IPFSLog
 		amount = *options.Amount
 	}
 
+	verifYield(l, "enter.Iterator")
 	l.lock.RLock()
 	start := l.sortedHeads(l.heads.Slice()).Slice()
 
@@ -521,6 +534,7 @@ func (l *IPFSLog) Join(otherLog iface.IPFSLog, size int) (iface.IPFSLog, error) 
 		return l, nil
 	}
 
+	verifYield(l, "join.lock")
 	l.lock.Lock()
 	defer l.lock.Unlock()
 
@@ -696,6 +710,8 @@ func (l *IPFSLog) ToString(payloadMapper func(iface.IPFSLogEntry) string) string
 
 // ToSnapshot exports a Snapshot-able version of the log
 func (l *IPFSLog) ToSnapshot() *Snapshot {
+	verifYield(l, "enter.ToSnapshot")
+
 	l.lock.RLock()
 	defer l.lock.RUnlock()
 
@@ -935,6 +951,8 @@ func NewFromEntry(ctx context.Context, services coreiface.CoreAPI, identity *ide
 //
 // The values are in linearized order according to their Lamport clocks
 func (l *IPFSLog) Values() iface.IPFSLogOrderedEntries {
+	verifYield(l, "enter.Values")
+
 	l.lock.RLock()
 	defer l.lock.RUnlock()
 
@@ -957,6 +975,8 @@ func (l *IPFSLog) values() iface.IPFSLogOrderedEntries {
 
 // ToJSON Returns a log in a JSON serializable structure
 func (l *IPFSLog) ToJSONLog() *iface.JSONLog {
+	verifYield(l, "enter.ToJSONLog")
+
 	l.lock.RLock()
 	heads := l.heads
 	l.lock.RUnlock()
@@ -980,6 +1000,8 @@ func (l *IPFSLog) GetID() string {
 }
 
 func (l *IPFSLog) GetEntries() iface.IPFSLogOrderedEntries {
+	verifYield(l, "enter.GetEntries")
+
 	l.lock.RLock()
 	defer l.lock.RUnlock()
 
@@ -990,6 +1012,8 @@ func (l *IPFSLog) GetEntries() iface.IPFSLogOrderedEntries {
 //
 // Heads are the entries that are not referenced by other entries in the log
 func (l *IPFSLog) Heads() iface.IPFSLogOrderedEntries {
+	verifYield(l, "enter.Heads")
+
 	l.lock.RLock()
 	heads := l.heads.Slice()
 	l.lock.RUnlock()
